@@ -52,21 +52,26 @@ Proof. exact concurrent_consistent. Qed.
 Theorem C15_traced_run_is_crun : forall st sched, fst (crun_traced st sched) = crun st sched.
 Proof. exact crun_traced_is_crun. Qed.
 
-(* REFUTED - linearizability of AddUser: after AddGroup g1, T0 = AddUser u2 g1 and T1 = DelGroup g1;
-   LookupUser u2 under the schedule [0;1;1;0] (T0 finds g1 under grpMu, T1 deletes g1 and looks u2 up,
-   T0 inserts u2 under usrMu) return results that no sequential order of the three calls returns.
-   (The maps stay consistent - theorem above - and the outcome of AddUser alone is that of
-   "AddUser; DelGroup": the property's clause "AddUser fails for an unknown group" holds for the
-   group table as it was at AddUser's look-up.) *)
-Theorem C15_refuted_adduser_delgroup :
-  idm_lin_ok w_s0 w_progs (crun (w_s0, mk_threads w_progs) w_sched) = false /\
-  outs (crun (w_s0, mk_threads w_progs) w_sched) = [[RUser w_u2 1001 1001 false]; [RNil; RErr (UnknownUser w_u2)]].
-Proof. split; [exact adduser_delgroup_not_linearizable|exact adduser_delgroup_outcome]. Qed.
+(* LINEARIZABILITY.  [crun_log] is [crun] (first conjunct) that also logs every call when it completes
+   (thread, call, result).  For ANY initial state, ANY number of threads, ANY programs and ANY schedule:
+   the logged calls, in their order of completion, executed one after the other by the sequential model
+   from the same initial state, produce the same final state and, call by call, the same results.  Every
+   call thus takes effect atomically at its last critical section; program order and real-time order are
+   respected because a call completes after it starts and a thread completes its calls in order.
+   With C15_refine the concurrent results are those of the two-list reference on that order. *)
+Theorem C15_linearizable : forall (s0 : idm) (progs : list (list iop)) (sched : list nat),
+  let st := crun_log (s0, mk_threads progs) sched in
+  fst st = crun (s0, mk_threads progs) sched /\
+  idm_run s0 (map lop (snd st)) = (fst (fst st), map lres (snd st)).
+Proof. exact crun_linearizable. Qed.
 
-Example C15_lin_checker_accepts_sequential :
-  idm_lin_ok w_s0 w_progs (crun (w_s0, mk_threads w_progs) [0; 0; 1; 1]) = true /\
-  idm_lin_ok w_s0 w_progs (crun (w_s0, mk_threads w_progs) [1; 0; 1; 0]) = true.
-Proof. exact idm_lin_ok_sequential. Qed.
+(* The former counter-example (AddUser u2 g1 || DelGroup g1; LookupUser u2 after AddGroup g1, DelGroup
+   scheduled between the two sections of AddUser): DelGroup is now blocked until AddUser has returned and
+   the outcome is that of the order AddUser, DelGroup, LookupUser. *)
+Example C15_adduser_delgroup_regression :
+  idm_lin_ok w_s0 w_progs (crun (w_s0, mk_threads w_progs) w_sched) = true /\
+  outs (crun (w_s0, mk_threads w_progs) w_sched) = [[RUser w_u2 1001 1001 false]; [RNil; RUser w_u2 1001 1001 false]].
+Proof. exact adduser_delgroup_now_linearizable. Qed.
 
 (* Non-vacuity: a concrete history with adds, duplicate, deletes and re-adds. *)
 Example C15_example :
